@@ -522,7 +522,26 @@ func (d *cnDriver) step() error {
 		// runtime registrations and updates: by the owner (incl. governance-model transitions) and by somebody else
 		r := []string{"R0", "R1"}[d.rng.Intn(2)]
 		owner, exists := d.rtOwner[r]
+		// (the owner as the registry recorded it at the end of the previous block: runtimes change hands)
+		if rts, ok := d.lastReg["runtimes"].([]map[string]any); ok {
+			for _, x := range rts {
+				if x["id"] == r {
+					if o, ok := x["ent"].(string); ok {
+						owner, exists = o, true
+					}
+				}
+			}
+		}
+		for _, m := range metas {
+			if m.spec.Kind == "regruntime" && m.spec.To == r {
+				exists = false // another update of this runtime is already in the block: who owns it afterwards is not known here
+				owner = ""
+			}
+		}
 		e := fmt.Sprintf("E%d", d.rng.Intn(n.cfg.Validators))
+		if exists && strings.HasPrefix(owner, "U") && d.rng.Intn(2) == 0 {
+			e = owner
+		}
 		validity := "ok"
 		if exists && owner != e {
 			if d.rng.Intn(2) == 0 {
